@@ -21,6 +21,9 @@ TRUSTED = [
     'Coq 8.16.1 kernel + vm_compute; Coq Interval for the kernel enclosures',
     'model coq/model/M_cycles.v (+ peaks / switched_peaks of M_peaks.v): delta / pseudo-cyclic series = scatter of oriented peak differences / alternating rebased peak values; '
     'n_cyc = running sum of the per-peak fractions placed at the switched peaks (equivalent to the interp1d(kind=previous) step function of the code: tied by correspondence); tie = correspondence of this run (model/K_C13.v)',
+    'translator/py2coq_c13.py (re-run on every check) + the C13_*_is_source* theorems: for the four power-law functions of eqsig/im.py and the two peak-only series of '
+    'eqsig/fns/peaks_and_crossings.py trusted is only the translator\'s reading of each whitelisted NumPy/SciPy call (header of coq/gen/Gen_c13.v), not the agreement of a hand model with the code; '
+    'for the peak-only series the theorems assume what clean_out_non_changing / determine_indices_of_peaks_for_cleaned_array return (C11 pipeline statement)',
     'real powers: at R the model uses Rpower (0 at 0); at Q integer powers for b = 1/e, otherwise the harness computes x**(1/b) with numpy and each value is proved to be within 1e-13 of the real power',
     'exact arithmetic (IEEE rounding, overflow and underflow not modelled; generators keep every kernel value finite and non-zero)',
     'Python harness',
@@ -135,10 +138,24 @@ def as_input(rng, xs):
     return np.array(xs, dtype=float), 'float-array'
 
 
+def regen_c13():
+    """re-translate eqsig/im.py (power-law functions) and eqsig/fns/peaks_and_crossings.py (peak-only series) into
+    coq/gen/Gen_c13.v (fail closed): the `C13_*_is_source*` theorems of Prop_C13 are then re-proved against the code that is
+    in the repo now"""
+    import sys
+    try:
+        sys.path.insert(0, os.path.join(core.VERIF, 'translator'))
+        import py2coq_c13
+        py2coq_c13.regenerate(repo=core.REPO)
+    except Exception as e:
+        return 'py2coq_c13: %s: %s' % (type(e).__name__, e)
+    return None
+
+
 def run(rep, rng, tier):
     from eqsig.fns import peaks_and_crossings as pc
     from eqsig import im
-    rep.prove('Prop_C13', targets=['props/Prop_C13.vo', 'model/K_C13.vo'])
+    rep.prove('Prop_C13', targets=['props/Prop_C13.vo', 'model/K_C13.vo'], gen_failed=regen_c13())
     quick = tier == 'quick'
     deltas, pseudos, shifts = [], [], []
     ncycs, amps, combs, gms, rels, monos = [], [], [], [], [], []
